@@ -74,9 +74,27 @@ sharness! {
             p.set_b0(v);
             accept_body(&mut src, &pre, p.bytes(), send, recv);
         };
-        for_b0!(quick, b0, run);
-        kani::cover!(sh::controller(&src).n_meas == 2 && b0 == 0x1C, "v3 answer accepted by a V4 association");
+        for_b0!(quick_a, b0, run);
         kani::cover!(sh::controller(&src).n_meas == 2 && matches!(pre.pv, ProtocolVersion::V4UpgradingToV5 { .. }), "answer accepted while upgrading");
+    }
+}
+
+sharness! {
+    #[kani::unwind(12)]
+    fn c08_accept_b() {
+        stubs::symbolic_clock();
+        let (mut src, pre) = any_source(PvClass::Any);
+        let mut p = any_pkt4();
+        let b0: u8 = kani::any();
+        let send: u64 = kani::any();
+        let recv: u64 = kani::any();
+        let mut run = |v: u8| {
+            p.set_b0(v);
+            accept_body(&mut src, &pre, p.bytes(), send, recv);
+        };
+        for_b0!(quick_b, b0, run);
+        kani::cover!(sh::controller(&src).n_meas == 2 && b0 == 0x1C, "v3 answer accepted by a V4 association");
+        kani::cover!(sh::controller(&src).n_meas == 0 && b0 == 0x1C && matches!(pre.pv, ProtocolVersion::V4UpgradingToV5 { .. }) && pre.has_pending && origin_field(p.bytes()) == pre.pending_id && pre.deadline >= pre.base && stratum_byte(p.bytes()) == 1, "v3 answer rejected while upgrading");
     }
 }
 
